@@ -1,3 +1,4 @@
+import Std.Data.HashMap
 import GoBk.Model.RealPrims
 import GoBk.Model.Base58
 import GoBk.Model.Der
@@ -62,13 +63,56 @@ def obsKey (nets : List Net) (k : Bip32.XKey) : String :=
   "|F=" ++ nhx (Bip32.parentFingerprint k) ++ "|A=" ++ hx (Bip32.address pr k addrID) ++
   "|K=" ++ pub ++ "|V=" ++ prv
 
-def obsAll (nets : List Net) (st : XState) : String :=
-  ",".intercalate (st.regs.toList.map fun r =>
+/-- memo tables of the driver (pure-function caches; they change no result) -/
+structure Cache where
+  obs : Std.HashMap Bip32.XKey String := {}
+  child : Std.HashMap (Bip32.XKey × Nat) (Except Bip32.Err Bip32.XKey) := {}
+  neuter : Std.HashMap Bip32.XKey (Except Bip32.Err Bip32.XKey) := {}
+
+def obsKeyC (nets : List Net) (c : Cache) (k : Bip32.XKey) : String × Cache :=
+  match c.obs[k]? with
+  | some s => (s, c)
+  | none => let s := obsKey nets k; (s, { c with obs := c.obs.insert k s })
+
+def childC (c : Cache) (k : Bip32.XKey) (i : Nat) : Except Bip32.Err Bip32.XKey × Cache :=
+  match c.child[(k, i)]? with
+  | some r => (r, c)
+  | none => let r := Bip32.child pr k i; (r, { c with child := c.child.insert (k, i) r })
+
+def neuterC (reg : Bip32.Registry) (c : Cache) (k : Bip32.XKey) : Except Bip32.Err Bip32.XKey × Cache :=
+  match c.neuter[k]? with
+  | some r => (r, c)
+  | none => let r := Bip32.neuter reg k; (r, { c with neuter := c.neuter.insert k r })
+
+/-- derivation by path through the cached `child` (same function as `Bip32.deriveChildFromPath`,
+    unfolded so that each step is memoised) -/
+def derivePathC (c : Cache) : Bip32.XKey → List Bytes → Except Bip32.Err Bip32.XKey × Cache
+  | k, [] => (.ok k, c)
+  | k, comp :: cs =>
+    match Bip32.childIndex comp with
+    | none => (.error .badPath, c)
+    | some i =>
+      match childC c k i with
+      | (.error e, c) => (.error e, c)
+      | (.ok k', c) => derivePathC c k' cs
+
+/-- observe the live registers (all of them, or the 16 most recent when there are more) -/
+def obsAll (nets : List Net) (c : Cache) (st : XState) : String × Cache := Id.run do
+  let regs := st.regs.toList
+  let regs := if regs.length > 16 then regs.drop (regs.length - 16) else regs
+  let mut c := c
+  let mut parts : Array String := #[]
+  for r in regs do
     match r with
-    | none => "e"
-    | some id => match st.objs[id]? with
-      | some k => obsKey nets k
-      | none => "e")
+    | none => parts := parts.push "e"
+    | some id =>
+      match st.objs[id]? with
+      | some k =>
+        let (s, c') := obsKeyC nets c k
+        c := c'
+        parts := parts.push s
+      | none => parts := parts.push "e"
+  (",".intercalate parts.toList, c)
 
 def XState.newObj (st : XState) (r : Except Bip32.Err Bip32.XKey) : XState :=
   match r with
@@ -80,49 +124,55 @@ def XState.get (st : XState) (reg : Nat) : Option (Nat × Bip32.XKey) :=
   | some (some id) => (st.objs[id]?).map fun k => (id, k)
   | _ => none
 
-def xkOp (nets : List Net) (reg : Bip32.Registry) (st : XState) (op : String) : Option XState :=
+def xkOp (nets : List Net) (reg : Bip32.Registry) (c : Cache) (st : XState) (op : String) : Option (XState × Cache) :=
   let kind := op.take 1 |>.toString
   let rest := (op.drop 1).toString
   let parts := rest.splitOn ":"
   match kind, parts with
   | "c", [r, i] => do
     let r ← r.toNat?; let i ← i.toNat?
+    if r ≥ st.regs.size then none else
     match st.get r with
-    | none => pure { st with regs := st.regs.push none }
-    | some (_, k) => pure (st.newObj (Bip32.child pr k i))
+    | none => pure ({ st with regs := st.regs.push none }, c)
+    | some (_, k) => let (res, c) := childC c k i; pure (st.newObj res, c)
   | "n", [r] => do
     let r ← r.toNat?
+    if r ≥ st.regs.size then none else
     match st.get r with
-    | none => pure { st with regs := st.regs.push none }
+    | none => pure ({ st with regs := st.regs.push none }, c)
     | some (id, k) =>
-      if !k.isPrivate then pure { st with regs := st.regs.push (some id) }   -- same object
-      else pure (st.newObj (Bip32.neuter reg k))
+      if !k.isPrivate then pure ({ st with regs := st.regs.push (some id) }, c)   -- same object
+      else let (res, c) := neuterC reg c k; pure (st.newObj res, c)
   | "p", [r, p] => do
     let r ← r.toNat?; let p ← unhex p
+    if r ≥ st.regs.size then none else
     match st.get r with
-    | none => pure { st with regs := st.regs.push none }
+    | none => pure ({ st with regs := st.regs.push none }, c)
     | some (id, k) =>
-      if p.isEmpty then pure { st with regs := st.regs.push (some id) }      -- same object
-      else pure (st.newObj (Bip32.deriveChildFromPath pr k p))
+      if p.isEmpty then pure ({ st with regs := st.regs.push (some id) }, c)      -- same object
+      else let (res, c) := derivePathC c k (Bip32.splitOn 47 p); pure (st.newObj res, c)
   | "t", [r] => do
     let r ← r.toNat?
+    if r ≥ st.regs.size then none else
     match st.get r with
-    | none => pure { st with regs := st.regs.push none }
-    | some (_, k) => pure (st.newObj (Bip32.fromString pr (Bip32.toString pr k)))
+    | none => pure ({ st with regs := st.regs.push none }, c)
+    | some (_, k) => pure (st.newObj (Bip32.fromString pr (Bip32.toString pr k)), c)
   | "s", [r, n] => do
     let r ← r.toNat?; let n ← n.toNat?
+    if r ≥ st.regs.size then none else
     let net ← nets[n]?
     match st.get r with
-    | none => pure st
-    | some (id, k) => pure { st with objs := st.objs.set! id (Bip32.setNet k net.hdPriv net.hdPub) }
+    | none => pure (st, c)
+    | some (id, k) => pure ({ st with objs := st.objs.set! id (Bip32.setNet k net.hdPriv net.hdPub) }, c)
   | "z", [r] => do
     let r ← r.toNat?
+    if r ≥ st.regs.size then none else
     match st.get r with
-    | none => pure st
-    | some (id, k) => pure { st with objs := st.objs.set! id (Bip32.zero k) }
+    | none => pure (st, c)
+    | some (id, k) => pure ({ st with objs := st.objs.set! id (Bip32.zero k) }, c)
   | _, _ => none
 
-def runXk (netsS rootS opsS : String) : Option String := do
+def runXk (c : Cache) (netsS rootS opsS : String) : Option (String × Cache) := do
   let nets ← parseNets netsS
   let reg : Bip32.Registry := nets.map fun n => (n.hdPriv, n.hdPub)
   let root ← match rootS.splitOn ":" with
@@ -136,11 +186,17 @@ def runXk (netsS rootS opsS : String) : Option String := do
   let st0 := (XState.newObj {} root)
   let ops := if opsS == "-" then [] else opsS.splitOn ";"
   let mut st := st0
-  let mut out := obsAll nets st
+  let mut c := c
+  let (o, c') := obsAll nets c st
+  c := c'
+  let mut out := o
   for op in ops do
-    st ← xkOp nets reg st op
-    out := out ++ "/" ++ obsAll nets st
-  pure ("ok " ++ out)
+    let (st', c') ← xkOp nets reg c st op
+    st := st'
+    let (o, c'') := obsAll nets c' st
+    c := c''
+    out := out ++ "/" ++ o
+  pure ("ok " ++ out, c)
 
 /-! ### dispatcher -/
 def optBytes (s : String) : Option (Option Bytes) :=
@@ -256,7 +312,13 @@ def runOp (op : String) (a : List String) : Option String :=
   | "env.new", [pl, t] => do
     let pl ← unhex pl; let t ← untape t
     pure (match Envelope.newEnvelope pr nonceFuel pl t with
-      | some (sg, pk) => "ok " ++ hx sg ++ " " ++ hx pk | none => "err")
+      | some (sg, pk) =>
+        -- the envelope's own validity, and again after a JSON round trip of the envelope
+        -- (modelled as the identity on its string fields)
+        let v := match Envelope.isValid pr pl (some sg) (some pk) Envelope.mimeJSON with
+          | .valid => "1" | .invalid => "0" | .error => "e"
+        "ok " ++ hx sg ++ " " ++ hx pk ++ " " ++ v ++ " " ++ v
+      | none => "err")
   | "rng.key", [t] => do
     let t ← untape t
     pure (match Rng.generateKey t with
@@ -267,23 +329,26 @@ def runOp (op : String) (a : List String) : Option String :=
   | "rng.entropy", [n, t] => do
     let n ← n.toNat?; let t ← untape t
     pure (match Rng.generateEntropy n t with | some (b, _) => "ok " ++ hx b | none => "err")
-  | "xk", [nets, root, ops] => runXk nets root ops
   | _, _ => none
 
-partial def loop (hin hout : IO.FS.Stream) : IO Unit := do
+partial def loop (hin hout : IO.FS.Stream) (c : Cache) : IO Unit := do
   let line ← hin.getLine
   if line.isEmpty then return ()
   let toks := (line.trimAscii.toString.splitOn " ").filter (· != "")
   match toks with
-  | [] => hout.putStrLn "bad-op"
+  | [] => hout.putStrLn "bad-op"; loop hin hout c
+  | ["xk", nets, root, ops] =>
+    match runXk c nets root ops with
+    | some (r, c') => hout.putStrLn r; loop hin hout c'
+    | none => hout.putStrLn "bad-op"; loop hin hout c
   | op :: args =>
     match runOp op args with
     | some r => hout.putStrLn r
     | none => hout.putStrLn "bad-op"
-  loop hin hout
+    loop hin hout c
 
 def main : IO Unit := do
   let hin ← IO.getStdin
   let hout ← IO.getStdout
-  loop hin hout
+  loop hin hout {}
   hout.flush
